@@ -25,6 +25,7 @@ from vf.rigs.env import Env
 from vf.runner import Ob
 
 LEVEL = "other"
+TECHNIQUE = ('CrossHair (z3) on the real schema-argument / record validation with symbolic schemas and records + symx case-splitting over schema / value / file variants through the real Table API')
 EXPLANATION = (
     "CrossHair/z3 on the real schema-argument validation + Arrow schema construction (symbolic permutation, ids, types, "
     "nullability, arity) and on record validation (symbolic records); symx/z3 exploration of (schema variant x handle "
